@@ -424,6 +424,32 @@ class CConfig:
         return self.tag()
 
 
+# what a user's build may add without changing what the code means
+PRE_INCLUDES = ["stdlib.h", "time.h", "pthread.h", "sys/types.h", "signal.h", "endian.h", "sys/param.h", "sys/socket.h", "arpa/inet.h", "math.h", "limits.h", "stdio.h", "string.h"]
+ABI_NEUTRAL_FLAGS = ["-funsigned-char", "-fsigned-char", "-fshort-enums", "-fno-strict-aliasing", "-fwrapv", "-D_GNU_SOURCE", "-fstack-protector-all", "-fPIC", "-fno-common", "-D_FORTIFY_SOURCE=2", "-DNDEBUG"]
+LIB_STDS = ["", "", "", "-std=c99", "-std=c11", "-std=c17", "-std=gnu99", "-std=gnu17", "-std=c2x"]
+
+
+def build_variation() -> Any:
+    """Strategy: {'pre': libc headers before the runtime, 'flags': ABI-neutral flags, 'lib_std': language standard}."""
+    from hypothesis import strategies as st
+
+    return st.fixed_dictionaries(
+        {
+            "pre": st.one_of(st.just([]), st.lists(st.sampled_from(PRE_INCLUDES), min_size=1, max_size=3, unique=True)),
+            "flags": st.one_of(st.just([]), st.lists(st.sampled_from(ABI_NEUTRAL_FLAGS), min_size=1, max_size=2, unique=True)),
+            "lib_std": st.sampled_from(LIB_STDS),
+        }
+    )
+
+
+def apply_variation(cfg: "CConfig", var: Dict[str, Any]) -> "CConfig":
+    cfg.extra = [x for x in var.get("flags", []) if not (x == "-D_FORTIFY_SOURCE=2" and (cfg.opt == "-O0" or cfg.sanitize))]
+    cfg.pre_includes = list(var.get("pre", []))
+    cfg.lib_std = "" if cfg.single_tu else var.get("lib_std", "")
+    return cfg
+
+
 class Crash(Exception):
     def __init__(self, op_index: int, phase: str, returncode: int, stderr: str):
         super().__init__(f"driver died in op {op_index} ({phase}), returncode={returncode}: {stderr[-1500:]}")
